@@ -12,13 +12,13 @@ import (
 // environment. Close() behaves like a real subscription's: Events() is closed
 // and Done() closes (idempotent, asynchronous).
 type vFakeSub struct {
-	readych chan struct{}
-	evch    chan Event
-	donech  chan struct{}
-	closech chan struct{}
-	content []metav1.Object // ghost cache content returned by Cache().List()
-	lists   int             // number of List() calls
-	listErr error
+	readych       chan struct{}
+	evch          chan Event
+	donech        chan struct{}
+	closech       chan struct{}
+	content       []metav1.Object // ghost cache content returned by Cache().List()
+	lists         int             // number of List() calls
+	listErr       error
 	cacheOverride CacheReader
 }
 
@@ -43,10 +43,10 @@ func (s *vFakeSub) Cache() CacheReader {
 	}
 	return vFakeCache{s}
 }
-func (s *vFakeSub) Ready() <-chan struct{}  { return s.readych }
-func (s *vFakeSub) Events() <-chan Event    { return s.evch }
-func (s *vFakeSub) Done() <-chan struct{}   { return s.donech }
-func (s *vFakeSub) Error() error            { return nil }
+func (s *vFakeSub) Ready() <-chan struct{} { return s.readych }
+func (s *vFakeSub) Events() <-chan Event   { return s.evch }
+func (s *vFakeSub) Done() <-chan struct{}  { return s.donech }
+func (s *vFakeSub) Error() error           { return nil }
 func (s *vFakeSub) Close() {
 
 	select {
